@@ -86,6 +86,9 @@ Fixpoint dec_q (e : sexp) : option query :=
           else if atom_is "try" t then match dec_q x, dec_q y with Some a, Some b => Some (QTry a (Some b)) | _, _ => None end
           else if atom_is "index" t then match dec_q x, dec_val y with Some a, Some k => Some (QIndex a k) | _, _ => None end
           else if atom_is "label" t then match dec_name x, dec_q y with Some l, Some b => Some (QLabel l b) | _, _ => None end
+          (* `if c then a end` (e.Else == nil, also at the end of an elif chain): compileIf emits the then-branch, the
+             jump over the (absent) else and nothing more -- the code of `else .`, whose compileQuery appends nothing *)
+          else if atom_is "ifn" t then match dec_q x, dec_q y with Some c, Some a => Some (QIf c a QId) | _, _ => None end
           else None
       | [x; y; z] =>
           if atom_is "if" t then match dec_q x, dec_q y, dec_q z with Some c, Some a, Some b => Some (QIf c a b) | _, _, _ => None end
